@@ -44,7 +44,7 @@ chk("C09", "model_checking",
     "bounded-exhaustive input-grammar enumeration on the real app, no-panic + liveness oracle", "§5 C09")
 
 chk("C02", "model_checking",
-    "All histories within the deviation bound of the shared families and of a value-moving family (28-template menu with 256-bit boundary amounts, boundary-balance senders, both genesis stakes unbonding, unstake + re-stake twice in a block, withdrawals, value-carrying contract calls, evidence, jailing, proposer-less blocks): at every height the sum of ALL balances + bonded + unbonding stake read from the implementation obeys T(h)=T(h-1)+withdrawn-slashed-burntFees, no balance exceeds the total supply, every balance equals the model's, and no withdrawal mints more than was issued to the account as reward.",
+    "All histories within the deviation bound of the shared families and of a value-moving family (30-template menu with 256-bit boundary amounts, boundary-balance senders, both genesis stakes unbonding, unstake + re-stake twice in a block, withdrawals (fixed amounts and exactly / one above what is withdrawable), value-carrying contract calls, evidence, jailing, proposer-less blocks): at every height the sum of ALL balances + bonded + unbonding stake read from the implementation obeys T(h)=T(h-1)+withdrawn-slashed-burntFees, no balance exceeds the total supply, every balance equals the model's, and no withdrawal mints more than was issued to the account as reward.",
     'Reference model (mc/refmodel) is result-conditioned: it asserts only the necessary conditions the properties state and computes exact effects / block rules; validator tie-breaks and acceptance heuristics (stake limiter, EVM gas schedule) are not predicted. Known findings are matched by (kind, site) fingerprints.',
     "deviation-bounded exhaustive history exploration on the real app, step-by-step comparison with a result-conditioned reference model", "§5 C02")
 chk("C10", "model_checking",
